@@ -137,3 +137,9 @@ package objectcore
 //@   callee strings.Compare
 //@   pureeffect
 //@   requires [text_order_only_for_plain_attributes] firstAttr != object.FilterOwnerID && firstAttr != object.FilterFirstSplitObject && firstAttr != object.FilterParentID && firstAttr != object.AttributeAssociatedObject
+
+// The scan that decides, at the page limit, whether anything is left (`more`) stops at the
+// first set that still holds another item: while it runs, nothing has been found yet.
+//@ func MergeSearchResults
+//@   loop 3 invariant !more
+//@   loop 4 invariant !more
